@@ -320,7 +320,7 @@ def var_chao1(counts):
     
     f2 = counts[1]
     ratio = f1 / f2
-    return f2 * ((ratio / 4) ** 4 + ratio**3 + (ratio / 2) ** 2)
+    return f2 * (0.5 * ratio**2 + ratio**3 + 0.25 * ratio**4)
 
 def chao2(counts, m):
     """Estimate richness from incidence data
@@ -351,6 +351,7 @@ def var_chao2(counts, m):
     if (len(counts) == 1) or (counts[1] == 0):
         return np.nan
     
+    q2 = counts[1]
     ratio = q1/q2
     return q2*(0.5*ratio**2+ratio**3+0.25*ratio**4)
         
